@@ -156,3 +156,34 @@ def console_family(work, name, insess, cmds, maxcalls, maxatt, kinds, auth=1, in
             "consumed": consumed, "accepted": accepted, "viols": viols, "traces": traces,
             "times": {"gen": round(t1 - t0, 1), "replay": round(t2 - t1, 1), "validate": round(t3 - t2, 1)},
             "subst": subst}
+
+
+def handshake_family(work, name, family, tier, seed, opts=None, workers=16):
+    """GenHandshake scenarios -> replay -> TraceHandshake validation."""
+    subst = dict(SEED=seed, FAMILY=family, TIER=tier)
+    t0 = time.time()
+    scripts, n, gst = generate("MCGenHandshake", "Gen_Handshake.cfg.tpl", subst, work, name, heap="6g", extra=())
+    t1 = time.time()
+    src = scripts
+    if opts:
+        # transport variants (exact-capacity replies, poisoned receive buffer) are harness options, not new scenarios
+        src = os.path.join(work, name + ".opts.ndjson")
+        with open(scripts) as f, open(src, "w") as o:
+            for i, line in enumerate(f):
+                if i == 0:
+                    o.write(line)
+                    continue
+                d = json.loads(line)
+                d["opts"] = opts
+                o.write(json.dumps(d) + "\n")
+    traces, info = replay(src, work, name, workers=workers)
+    t2 = time.time()
+    tracecfg = os.path.join(work, name + ".tracecfg.json")
+    json.dump({"known": known_pairs()}, open(tracecfg, "w"))
+    res = validate("TraceHandshake", "Trace_Console.cfg", traces, tracecfg, work)
+    accepted, consumed, events, viols = summarise(res)
+    t3 = time.time()
+    return {"name": name, "scripts": n, "scripts_file": src, "gen_states": gst["distinct"], "events": events,
+            "consumed": consumed, "accepted": accepted, "viols": viols, "traces": traces,
+            "times": {"gen": round(t1 - t0, 1), "replay": round(t2 - t1, 1), "validate": round(t3 - t2, 1)},
+            "subst": dict(subst, opts=opts)}
